@@ -52,7 +52,7 @@ def judge(ctx, trace, maxcap, name="mon"):
 
 
 def run(ctx):
-    tier, rng = ctx.tier, ctx.rng
+    tier, rng = ctx.tier, ctx.sub_rng("fam_ring.1")
     mc, mt = (5, 11) if tier == "quick" else (6, 16)
     d = ctx.tlc("design", "FrameLoop",
                 mkcfg(constants=dict(MaxCap=mc, MaxTag=mt),
@@ -68,7 +68,7 @@ def run(ctx):
                     mkcfg(init="RInit", next_="RNext", constants=dict(MaxCap=c, MaxTag=mtag, CCap=c)),
                     args=["-dump", "dot,actionlabels", "graph"], timeout=600, heap="4g", expect_ok=True)
         inits, nodes, edges = vlib.parse_dot(os.path.join(r["dir"], "graph.dot"))
-        paths, ne = vlib.transition_cover(inits, nodes, edges, maxlen=60, rng=rng)
+        paths, ne = vlib.transition_cover(inits, nodes, edges, maxlen=60, rng=ctx.sub_rng("ring.cover"))
         for p in paths:
             scripts.append(dict(cap=c, ops=[nodes[x]["a"] for x in p if nodes.get(x)]))
         graphs.append(dict(cap=c, states=r.get("distinct"), edges=ne, scripts=len(paths)))
